@@ -1,11 +1,13 @@
-// Adapter between the fork's object model and crypto/x509's: both sides are
-// reduced to a canonical tree by reflection (OIDs dotted, big.Int decimal,
-// times as UTC instant + zone offset, keys by their numbers, byte strings hex),
-// structs are compared on the intersection of their exported field names and
-// the fields only one side has are recorded for the evidence.
+// Adapter between the fork's object model and crypto/x509's: the two objects
+// are walked in parallel by reflection. Structs are compared on the
+// intersection of their exported field names (the fields only one side has are
+// recorded for the evidence); OIDs, big.Int, times (instant + zone offset),
+// URLs, IP networks, curves and keys are compared by value whatever package the
+// type comes from; nil and empty slices are the same list.
 package c11
 
 import (
+	"bytes"
 	"crypto/elliptic"
 	"crypto/rsa"
 	"encoding/hex"
@@ -29,109 +31,6 @@ var (
 	tRSAPriv = reflect.TypeOf(rsa.PrivateKey{})
 	tCurve   = reflect.TypeOf((*elliptic.Curve)(nil)).Elem()
 )
-
-type cstruct struct {
-	typ    string
-	names  []string
-	fields map[string]any
-}
-
-type ciface struct {
-	typ string
-	v   any
-}
-
-// canon reduces v to nil | string | int64 | uint64 | bool | []any | *cstruct | *ciface.
-func canon(v reflect.Value) any {
-	if !v.IsValid() {
-		return nil
-	}
-	t := v.Type()
-	switch {
-	case t == tBigPtr:
-		if v.IsNil() {
-			return nil
-		}
-		return "int:" + v.Interface().(*big.Int).String()
-	case t == tTime:
-		tm := v.Interface().(time.Time)
-		_, off := tm.Zone()
-		return fmt.Sprintf("time:%s zone%+d", tm.UTC().Format(time.RFC3339Nano), off)
-	case t == tURL:
-		u := v.Interface().(url.URL)
-		return "url:" + u.String()
-	case t == tIPNet:
-		n := v.Interface().(net.IPNet)
-		return "ipnet:" + hex.EncodeToString(n.IP) + "/" + hex.EncodeToString(n.Mask)
-	case t == tRSAPriv:
-		k := v.Interface().(rsa.PrivateKey)
-		s := fmt.Sprintf("rsa-private N=%v E=%d D=%v primes=", k.N, k.E, k.D)
-		for _, p := range k.Primes {
-			s += p.String() + ","
-		}
-		return s
-	case t.Name() == "ObjectIdentifier" && t.Kind() == reflect.Slice:
-		parts := make([]string, v.Len())
-		for i := range parts {
-			parts[i] = fmt.Sprint(v.Index(i).Int())
-		}
-		return "oid:" + strings.Join(parts, ".")
-	}
-	switch t.Kind() {
-	case reflect.Bool:
-		return v.Bool()
-	case reflect.Int, reflect.Int8, reflect.Int16, reflect.Int32, reflect.Int64:
-		if t.PkgPath() != "" && v.CanInterface() {
-			if s, ok := v.Interface().(fmt.Stringer); ok {
-				return "enum:" + s.String()
-			}
-		}
-		return v.Int()
-	case reflect.Uint, reflect.Uint8, reflect.Uint16, reflect.Uint32, reflect.Uint64:
-		return v.Uint()
-	case reflect.String:
-		return "str:" + v.String()
-	case reflect.Slice, reflect.Array:
-		if t.Elem().Kind() == reflect.Uint8 {
-			b := make([]byte, v.Len())
-			reflect.Copy(reflect.ValueOf(b), v)
-			return "hex:" + hex.EncodeToString(b)
-		}
-		out := make([]any, v.Len()) // nil and empty slices are the same list
-		for i := range out {
-			out[i] = canon(v.Index(i))
-		}
-		return out
-	case reflect.Ptr:
-		if v.IsNil() {
-			return nil
-		}
-		return canon(v.Elem())
-	case reflect.Interface:
-		if v.IsNil() {
-			return nil
-		}
-		if t.Implements(tCurve) || v.Elem().Type().Implements(tCurve) {
-			if c, ok := v.Interface().(elliptic.Curve); ok {
-				return "curve:" + c.Params().Name
-			}
-		}
-		e := v.Elem()
-		return &ciface{typ: shortType(e.Type()), v: canon(e)}
-	case reflect.Struct:
-		cs := &cstruct{typ: t.Name(), fields: map[string]any{}}
-		for i := 0; i < t.NumField(); i++ {
-			f := t.Field(i)
-			if f.PkgPath != "" {
-				continue
-			}
-			cs.names = append(cs.names, f.Name)
-			cs.fields[f.Name] = canon(v.Field(i))
-		}
-		return cs
-	}
-	return "unsupported:" + t.String()
-}
 
 var pkgRe = regexp.MustCompile(`[A-Za-z0-9_./-]+/`)
 
@@ -163,76 +62,81 @@ func (n *fieldNotes) list() []string {
 	return out
 }
 
-// diff returns the path of the first difference between the fork's tree a and
-// std's tree b ("" when equal on the common field set).
-func diff(path string, a, b any, notes *fieldNotes) (where, av, bv string) {
-	switch x := a.(type) {
-	case *cstruct:
-		y, ok := b.(*cstruct)
-		if !ok {
-			return path, show(a), show(b)
-		}
-		for _, name := range x.names {
-			if _, ok := y.fields[name]; !ok {
-				notes.add("only in fork: " + x.typ + "." + name)
-				continue
-			}
-			if w, p, q := diff(path+"."+name, x.fields[name], y.fields[name], notes); w != "" {
-				return w, p, q
-			}
-		}
-		for _, name := range y.names {
-			if _, ok := x.fields[name]; !ok {
-				notes.add("only in crypto/x509: " + y.typ + "." + name)
-			}
-		}
-		return "", "", ""
-	case []any:
-		y, ok := b.([]any)
-		if !ok || len(x) != len(y) {
-			return path, show(a), show(b)
-		}
-		for i := range x {
-			if w, p, q := diff(path+"[]", x[i], y[i], notes); w != "" {
-				return w, p, q
-			}
-		}
-		return "", "", ""
-	case *ciface:
-		y, ok := b.(*ciface)
-		if !ok || x.typ != y.typ {
-			return path, show(a), show(b)
-		}
-		return diff(path, x.v, y.v, notes)
-	default:
-		if !reflect.DeepEqual(a, b) {
-			return path, show(a), show(b)
-		}
-		return "", "", ""
+// fieldMap: for a pair of struct types, the index pairs of the common exported fields.
+type typePair struct{ a, b reflect.Type }
+
+var fieldMaps sync.Map // typePair -> [][2]int
+
+func commonFields(a, b reflect.Type, notes *fieldNotes) [][2]int {
+	if m, ok := fieldMaps.Load(typePair{a, b}); ok {
+		return m.([][2]int)
 	}
+	var out [][2]int
+	for i := 0; i < a.NumField(); i++ {
+		fa := a.Field(i)
+		if fa.PkgPath != "" {
+			continue
+		}
+		if fb, ok := b.FieldByName(fa.Name); ok && fb.PkgPath == "" && len(fb.Index) == 1 {
+			out = append(out, [2]int{i, fb.Index[0]})
+		} else {
+			notes.add("only in fork: " + a.Name() + "." + fa.Name)
+		}
+	}
+	for i := 0; i < b.NumField(); i++ {
+		fb := b.Field(i)
+		if fb.PkgPath != "" {
+			continue
+		}
+		if _, ok := a.FieldByName(fb.Name); !ok {
+			notes.add("only in crypto/x509: " + b.Name() + "." + fb.Name)
+		}
+	}
+	fieldMaps.Store(typePair{a, b}, out)
+	return out
 }
 
-func show(a any) string {
+func isOID(t reflect.Type) bool { return t.Kind() == reflect.Slice && t.Name() == "ObjectIdentifier" }
+
+func oidString(v reflect.Value) string {
+	parts := make([]string, v.Len())
+	for i := range parts {
+		parts[i] = fmt.Sprint(v.Index(i).Int())
+	}
+	return strings.Join(parts, ".")
+}
+
+func byteSlice(v reflect.Value) []byte {
+	if v.Kind() == reflect.Slice && v.Type().Elem().Kind() == reflect.Uint8 {
+		return v.Bytes()
+	}
+	b := make([]byte, v.Len())
+	reflect.Copy(reflect.ValueOf(b), v)
+	return b
+}
+
+// show renders a value for a violation description.
+func show(v reflect.Value) string {
+	if !v.IsValid() {
+		return "<absent>"
+	}
 	var s string
-	switch x := a.(type) {
-	case nil:
-		s = "nil"
-	case *cstruct:
-		s = x.typ + "{"
-		for _, n := range x.names {
-			s += n + ":" + show(x.fields[n]) + " "
-		}
-		s += "}"
-	case []any:
-		s = "["
-		for _, e := range x {
-			s += show(e) + ", "
-		}
-		s += "]"
-	case *ciface:
-		s = "(" + x.typ + ")" + show(x.v)
+	t := v.Type()
+	switch {
+	case t == tBigPtr && !v.IsNil():
+		s = v.Interface().(*big.Int).String()
+	case isOID(t):
+		s = oidString(v)
+	case (t.Kind() == reflect.Slice || t.Kind() == reflect.Array) && t.Elem().Kind() == reflect.Uint8:
+		s = "hex:" + hex.EncodeToString(byteSlice(v))
+	case t.Kind() == reflect.Ptr && !v.IsNil():
+		return "&" + show(v.Elem())
+	case t.Kind() == reflect.Interface && !v.IsNil():
+		return "(" + shortType(v.Elem().Type()) + ")" + show(v.Elem())
+	case v.CanInterface():
+		s = fmt.Sprintf("%+v", v.Interface())
 	default:
-		s = fmt.Sprint(a)
+		s = v.String()
 	}
 	if len(s) > 300 {
 		s = s[:300] + "…"
@@ -240,9 +144,166 @@ func show(a any) string {
 	return s
 }
 
-// compareObjects canonicalises the fork's object and std's and diffs them.
+// diffV returns the path of the first difference between the fork's value a and
+// std's value b ("" when equal on the common field set).
+func diffV(a, b reflect.Value, notes *fieldNotes) (where, av, bv string) {
+	ne := func() (string, string, string) { return ".", show(a), show(b) }
+	if !a.IsValid() || !b.IsValid() {
+		if a.IsValid() != b.IsValid() {
+			return ne()
+		}
+		return "", "", ""
+	}
+	ta, tb := a.Type(), b.Type()
+	switch {
+	case ta == tBigPtr:
+		if tb != tBigPtr || a.IsNil() != b.IsNil() {
+			return ne()
+		}
+		if !a.IsNil() && a.Interface().(*big.Int).Cmp(b.Interface().(*big.Int)) != 0 {
+			return ne()
+		}
+		return "", "", ""
+	case ta == tTime:
+		if tb != tTime {
+			return ne()
+		}
+		x, y := a.Interface().(time.Time), b.Interface().(time.Time)
+		_, ox := x.Zone()
+		_, oy := y.Zone()
+		if !x.Equal(y) || ox != oy {
+			return ne()
+		}
+		return "", "", ""
+	case ta == tURL:
+		if tb != tURL {
+			return ne()
+		}
+		x, y := a.Interface().(url.URL), b.Interface().(url.URL)
+		if x.String() != y.String() || !reflect.DeepEqual(x, y) {
+			return ne()
+		}
+		return "", "", ""
+	case ta == tIPNet:
+		if tb != tIPNet {
+			return ne()
+		}
+		x, y := a.Interface().(net.IPNet), b.Interface().(net.IPNet)
+		if !bytes.Equal(x.IP, y.IP) || !bytes.Equal(x.Mask, y.Mask) {
+			return ne()
+		}
+		return "", "", ""
+	case ta == tRSAPriv:
+		if tb != tRSAPriv {
+			return ne()
+		}
+		x, y := a.Addr().Interface().(*rsa.PrivateKey), b.Addr().Interface().(*rsa.PrivateKey)
+		if x.N.Cmp(y.N) != 0 || x.E != y.E || x.D.Cmp(y.D) != 0 || len(x.Primes) != len(y.Primes) {
+			return ne()
+		}
+		for i := range x.Primes {
+			if x.Primes[i].Cmp(y.Primes[i]) != 0 {
+				return ne()
+			}
+		}
+		return "", "", ""
+	case isOID(ta):
+		if !isOID(tb) || oidString(a) != oidString(b) {
+			return ne()
+		}
+		return "", "", ""
+	}
+	if ta.Kind() != tb.Kind() {
+		return ne()
+	}
+	switch ta.Kind() {
+	case reflect.Bool:
+		if a.Bool() != b.Bool() {
+			return ne()
+		}
+	case reflect.Int, reflect.Int8, reflect.Int16, reflect.Int32, reflect.Int64:
+		if ta.PkgPath() != "" && a.CanInterface() && b.CanInterface() {
+			sa, oka := a.Interface().(fmt.Stringer)
+			sb, okb := b.Interface().(fmt.Stringer)
+			if oka && okb {
+				// enumerations with names (SignatureAlgorithm, PublicKeyAlgorithm): by name
+				if sa.String() != sb.String() {
+					return ne()
+				}
+				return "", "", ""
+			}
+		}
+		if a.Int() != b.Int() {
+			return ne()
+		}
+	case reflect.Uint, reflect.Uint8, reflect.Uint16, reflect.Uint32, reflect.Uint64:
+		if a.Uint() != b.Uint() {
+			return ne()
+		}
+	case reflect.String:
+		if a.String() != b.String() {
+			return ne()
+		}
+	case reflect.Slice, reflect.Array:
+		if ta.Elem().Kind() == reflect.Uint8 {
+			if tb.Elem().Kind() != reflect.Uint8 || !bytes.Equal(byteSlice(a), byteSlice(b)) {
+				return ne()
+			}
+			return "", "", ""
+		}
+		if a.Len() != b.Len() {
+			return ne()
+		}
+		for i := 0; i < a.Len(); i++ {
+			if w, p, q := diffV(a.Index(i), b.Index(i), notes); w != "" {
+				return "[]" + w, p, q
+			}
+		}
+	case reflect.Ptr:
+		if a.IsNil() || b.IsNil() {
+			if a.IsNil() != b.IsNil() {
+				return ne()
+			}
+			return "", "", ""
+		}
+		return diffV(a.Elem(), b.Elem(), notes)
+	case reflect.Interface:
+		if a.IsNil() || b.IsNil() {
+			if a.IsNil() != b.IsNil() {
+				return ne()
+			}
+			return "", "", ""
+		}
+		if ca, ok := a.Interface().(elliptic.Curve); ok {
+			cb, ok := b.Interface().(elliptic.Curve)
+			if !ok || ca.Params().Name != cb.Params().Name {
+				return ne()
+			}
+			return "", "", ""
+		}
+		if shortType(a.Elem().Type()) != shortType(b.Elem().Type()) {
+			return ".(type)", shortType(a.Elem().Type()), shortType(b.Elem().Type())
+		}
+		return diffV(a.Elem(), b.Elem(), notes)
+	case reflect.Struct:
+		for _, ix := range commonFields(ta, tb, notes) {
+			if w, p, q := diffV(a.Field(ix[0]), b.Field(ix[1]), notes); w != "" {
+				return "." + ta.Field(ix[0]).Name + strings.TrimSuffix(w, "."), p, q
+			}
+		}
+	default:
+		return ".(unsupported kind " + ta.Kind().String() + ")", "", ""
+	}
+	return "", "", ""
+}
+
+// compareObjects diffs the fork's object against std's.
 func compareObjects(root string, fork, std any, notes *fieldNotes) (where, fv, sv string) {
-	return diff(root, canon(reflect.ValueOf(fork)), canon(reflect.ValueOf(std)), notes)
+	w, p, q := diffV(reflect.ValueOf(fork), reflect.ValueOf(std), notes)
+	if w == "" {
+		return "", "", ""
+	}
+	return root + strings.TrimSuffix(w, "."), p, q
 }
 
 func rsaKey(p any) (*rsa.PrivateKey, bool) {
